@@ -6,7 +6,7 @@
   loop-variable naming, the `if doBreak: break` after every loop, the breakable-block flag
   protocol, the wrapper loop and the trailing `if False: yield False`, the nesting limits.
 -/
-import Yld.Model.Engine
+import Yld.Model.Clause
 import Yld.Model.Sexp
 namespace Yld
 
